@@ -371,6 +371,7 @@ def run(chk: Check, ctx: Any) -> None:
     resolver_tables_rule(chk, ctx, "C07-R5")
     from .c03 import remover_missing_label_rule
     remover_missing_label_rule(chk, ctx, "C07-R3")
+    collector_fresh_rule(chk, ctx, "C07-R4")
     pj = repo.func(f"{SPECIAL}:process_op_for_jump")
     pfn = pj.node
     dels = [n for n in walk_no_nested(pfn) if isinstance(n, ast.Delete)]
@@ -428,3 +429,52 @@ def run(chk: Check, ctx: Any) -> None:
                        f"`old_offset <= {ends}[routine_id - 1]`: with `<` a jump to the last op of the previous routine is attributed to the current one",
                        "moves down while the target is not behind the previous routine's last op", node=w)
     chk.floor("C07-R5", "routine search loops", n_loops, 2)
+
+
+def collector_fresh_rule(chk: Check, ctx: Any, rule: str) -> None:
+    """Containers the SsbScript listener hands to the ops/parameters it builds are created afresh, never emptied in place."""
+    repo = ctx.repo
+    lcls = repo.cls(f"{LISTENER}.SsbScriptCompilerListener")
+    attrs: dict[str, list[tuple[str, ast.AST]]] = {}
+    escapes: set[str] = set()
+    for mname, m in lcls.methods.items():
+        for n in walk_no_nested(m):
+            if isinstance(n, ast.Call) and isinstance(n.func, ast.Attribute) and n.func.attr == "clear":
+                a = astq.self_attr(n.func.value)
+                if a and a.startswith("_collected"):
+                    attrs.setdefault(a, []).append((mname, n))
+            # escapes: passed as an argument, or assigned to another name/attribute
+            if isinstance(n, ast.Call):
+                for arg in list(n.args) + [k.value for k in n.keywords]:
+                    a = astq.self_attr(arg)
+                    if a and a.startswith("_collected"):
+                        escapes.add(a)
+            if isinstance(n, ast.Assign):
+                a = astq.self_attr(n.value)
+                if a and a.startswith("_collected"):
+                    escapes.add(a)
+    colls = sorted({a for m in lcls.methods.values() for a, _v, _s in astq.self_assigns(m) if a.startswith("_collected")})
+    chk.floor(rule, "collector attributes of the SsbScript listener", len(colls), 3)
+    for a in colls:
+        if a in attrs and a in escapes:
+            mname, n = attrs[a][0]
+            chk.violation(rule, f"listener:collector-fresh:{a}", Func(lcls.mod, lcls, lcls.methods[mname]),
+                          f"{mname} empties self.{a} in place although the same object was already handed to a built op/parameter: every parameter built from it in "
+                          "one compilation shares one container and ends up with the contents of the last one", node=n)
+        else:
+            chk.hold(rule, f"listener:collector-fresh:{a}", lcls.mod, "re-created for every use")
+
+
+def labels_global_rule(chk: Check, ctx: Any, rule: str) -> None:
+    """The SsbScript listener keeps one label table for the whole file (jumps between routines are printed by both decompilers)."""
+    lcls = ctx.repo.cls(f"{LISTENER}.SsbScriptCompilerListener")
+    for mname, m in lcls.methods.items():
+        f = Func(lcls.mod, lcls, m)
+        for a, _v, st in astq.self_assigns(m):
+            if a == "_collected_labels":
+                chk.decide(rule, f"listener:labels-global:{mname}", mname == "__init__", f,
+                           f"{mname} replaces the label table: labels become local to a routine, so a jump into another routine (which the fallback text contains) "
+                           "creates a second, never defined label and the text does not compile back", "label table created once", node=st)
+        for c in walk_no_nested(m):
+            if isinstance(c, ast.Call) and isinstance(c.func, ast.Attribute) and c.func.attr == "clear" and astq.self_attr(c.func.value) == "_collected_labels":
+                chk.violation(rule, f"listener:labels-global:{mname}:clear", f, f"{mname} clears the label table: labels become routine-local", node=c)
